@@ -870,6 +870,7 @@ class Run:
             if out_live.composite_system is self.live.get(csys_id):
                 self.last_result_id = None
                 if self.generating:
+                    st.pop("result_id", None)  # a re-run step is a copy of an earlier one: its result is a new pool entry or none
                     rid = self.add_to_pool(W.qop_recipe(out_ref, csys_id, self.atol), out_live)
                     if rid is not None:
                         st["result_id"] = rid
@@ -1735,7 +1736,9 @@ class Generator:
         cands = [s for s in self.history if s["op"] in ("m", "with_var", "modfunc", "compose", "arith", "basis_fn", "tensor", "catalogue", "estimate", "loss_eval", "tomo_m", "mdist", "basis_q", "esys_q", "csys_q", "derive", "setq_q", "util")]
         if not cands:
             return None
-        return copy.deepcopy(self.rng.choice(cands))
+        st = copy.deepcopy(self.rng.choice(cands))
+        st.pop("result_id", None)  # the copy is a new step: whether its result joins the pool is decided when it runs
+        return st
 
 
 def _pauli_basis():
